@@ -5,7 +5,7 @@ import os
 from .. import core, gen
 from ..core import Rng, mix
 from ..engine import Outcome
-from .base import STD, exec_args, plan_of, not_meta, crashed, classify_diff
+from .base import STD, exec_args, plan_of, not_meta, crashed, classify_diff, exotic_tag, crash_text
 
 
 def edit_kind(desc):
@@ -100,7 +100,7 @@ def run_history(scn, wd, out, prop_id, variant="plain", judge_exit=False, wp_onl
             continue
         c = crashed(r)
         if c:
-            out.violate("subject-crash", "%s after [%s]" % (c.split(":")[0], ",".join(sorted(set(since)))),
+            out.violate("subject-crash", "%s after [%s]%s%s" % (c.split(":")[0], ",".join(sorted(set(since))), crash_text(r), exotic_tag(units)),
                         ["run #%d %s" % (si, c), "args: " + " ".join(args)] + r.stderr.strip().split("\n")[-6:])
             since = []
             continue
@@ -120,7 +120,7 @@ def run_history(scn, wd, out, prop_id, variant="plain", judge_exit=False, wp_onl
         if ms != mr or not r.xml_ok:
             oa, ob = core.diff_multisets(ms, mr)
             kind = classify_diff(oa, ob) if r.xml_ok else "malformed-output"
-            sig = "%s after [%s]" % (kind, ",".join(sorted(set(since))) or "nothing")
+            sig = "%s after [%s]%s" % (kind, ",".join(sorted(set(since))) or "nothing", exotic_tag(units))
             det = ["run #%d (%s) vs reference without build dir; changes since previous run: %s" % (si, " ".join(exec_args(run)), since),
                    "args: " + " ".join(args)] + core.fmt_diff(oa, ob, "cached", "fresh")
             ids = ",".join(sorted(set(("+" if side == 0 else "-") + k.id for side, lst in enumerate((oa, ob)) for k, _ in lst)))
